@@ -1010,7 +1010,7 @@ def fam_f_cycles(b):
     def ctor(name, params, attr="#[diplomat::attr(auto, constructor)]"):
         return ("%s\n        #[diplomat::demo(default_constructor)]\n        pub fn new(%s) -> Box<%s> { unimplemented!() }" % (
             attr, ", ".join("%s: %s" % (n, t) for n, t in params), name)).lstrip("\n")
-    for shape in ("self", "self-optional", "self-second-param", "pair", "triple", "pair-named-constructor"):
+    for shape in ("self", "self-optional", "self-second-param", "pair", "triple", "pair-named-constructor", "self-renamed", "pair-renamed"):
         n1, n2, n3 = b.sname("Cy"), b.sname("Cy"), b.sname("Cy")
         if shape == "self":
             tys = [tdecl(n1, "opaque", methods=[ctor(n1, [("o", "&" + n1)])])]
@@ -1023,6 +1023,12 @@ def fam_f_cycles(b):
         elif shape == "triple":
             tys = [tdecl(n1, "opaque", methods=[ctor(n1, [("o", "&" + n2)])]), tdecl(n2, "opaque", methods=[ctor(n2, [("o", "&" + n3)])]),
                    tdecl(n3, "opaque", methods=[ctor(n3, [("o", "&" + n1)])])]
+        elif shape == "self-renamed":
+            # (the type's JS-facing name differs from its Rust name)
+            tys = [tdecl(n1, "opaque", attrs=['#[diplomat::attr(js, rename = "Ren%s")]' % n1], methods=[ctor(n1, [("o", "&" + n1)])])]
+        elif shape == "pair-renamed":
+            tys = [tdecl(n1, "opaque", attrs=['#[diplomat::attr(*, rename = "Ren%s")]' % n1], methods=[ctor(n1, [("o", "&" + n2)])]),
+                   tdecl(n2, "opaque", attrs=['#[diplomat::attr(any(js, cpp), rename = "Ren%s")]' % n2], methods=[ctor(n2, [("o", "&" + n1)])])]
         else:
             tys = [tdecl(n1, "opaque", methods=[ctor(n1, [("o", "&" + n2)], "#[diplomat::attr(auto, named_constructor)]")]),
                    tdecl(n2, "opaque", methods=[ctor(n2, [("o", "&" + n1)], "#[diplomat::attr(auto, named_constructor)]")])]
